@@ -92,7 +92,12 @@ func (a *extraAttribute) deserialize(b []byte) (int, error) {
 		return 0, ErrCorruptedData
 	}
 
-	a.extra = make([]byte, binary.BigEndian.Uint16(b))
+	extraLen := int(binary.BigEndian.Uint16(b))
+	if extraLen > maxExtraLen || len(b) < sszSize+extraLen {
+		return 0, ErrCorruptedData
+	}
+
+	a.extra = make([]byte, extraLen)
 	copy(a.extra, b[sszSize:])
 
 	return sszSize + len(a.extra), nil
